@@ -13,7 +13,7 @@ else
 fi
 # our check on the changed tree
 S=/var/tmp/yq-seed-$$; rm -rf $S; mkdir -p $S; rsync -a --exclude target --exclude .git /repo/ $S/; (cd $S && git apply $WT/out/$M/patch.diff) || echo "patch does not apply to /repo HEAD"
-cd /verif && YQV_REPO=$S ./check $PROP > /tmp/check_x.txt 2>&1; RC_CHECK=$?
+cd /verif && YQV_EVIDENCE=/var/tmp/yq-scratch-evidence YQV_REPLAYS=/var/tmp/yq-scratch-replays YQV_REPO=$S ./check $PROP > /tmp/check_x.txt 2>&1; RC_CHECK=$?
 rm -rf $S
 grep -E "^(VIOLATION|UNDECIDED|KNOWN-FINDING|property|obligation failed)" /tmp/check_x.txt | cut -c1-300 > $OUT/check_output.txt
 cd $WT && git checkout -q -- .
